@@ -177,6 +177,8 @@ def range_cases(draw):
         # a filter between the disparity step and a refinement: refinement then works on disparities it did not pick
         i_d = [n for n, _ in pipe].index("disparity")
         pipe.insert(i_d + 1, ["filter.pre", {"filter_method": "median", "filter_size": 3}])
+        if draw(st.booleans()):  # both types of measure (min / max) in this class
+            pipe[0][1]["matching_cost_method"] = "zncc"
         if not any(n.split(".")[0] == "refinement" for n, _ in pipe[i_d + 2:]):
             pipe.insert(i_d + 2, ["refinement.post", {"refinement_method": draw(st.sampled_from(["vfit", "quadratic"]))}])
     A = draw(st.integers(-5, 3))
@@ -283,5 +285,5 @@ def range_body(ctx: Ctx, p: dict) -> None:
 CHECKS = [
     Check("nested", nested_body, strategy=nested_cases, budget={"quick": (6, 30), "thorough": (16, 500)}),
     Check("grids", grids_body, strategy=grids_cases, budget={"quick": (5, 30), "thorough": (16, 500)}),
-    Check("range", range_body, strategy=range_cases, budget={"quick": (5, 30), "thorough": (16, 500)}),
+    Check("range", range_body, strategy=range_cases, budget={"quick": (6, 40), "thorough": (16, 500)}),
 ]
